@@ -7,16 +7,23 @@
 (* way family.deleteObsoleteFiles is: list the directory, collect pending     *)
 (* outputs, collect files of active versions, collect live rollup files,      *)
 (* remove.  Mutation switches show what the ordering protects.                *)
+(* Several flushers (constant Flusher) commit to the same family; with the    *)
+(* switch BaseBeforeLock a committer reads the version it will extend BEFORE  *)
+(* it enters the version-set lock (instead of inside, after the manifest      *)
+(* append): two overlapping commits then start from the same version and the  *)
+(* later install drops the earlier commit.                                    *)
 EXTENDS KVStore
 
-CONSTANTS Reader, MaxFlush, MaxCompact, MaxCleanup,
+CONSTANTS Reader, Flusher, MaxFlush, MaxCompact, MaxCleanup,
           CollectActiveFirst,   \* cleanup collects active versions BEFORE pending outputs
-          UnpendEarly           \* compaction un-pends its output when the table is closed (seeded change C02a)
+          UnpendEarly,          \* compaction un-pends its output when the table is closed (seeded change C02a)
+          BaseBeforeLock        \* a commit reads its base version before it takes the version-set lock (seeded change C02f)
 
 VARIABLES fl, cp, cl, nflush, ncompact, ncleanup
 mcvars == <<vars, fl, cp, cl, nflush, ncompact, ncleanup>>
 
 F == 1     \* the family under test
+IdleFl == [pc |-> "idle", num |-> 0, base |-> EmptyV]
 IdleCl == [pc |-> "idle", listing |-> {}, live |-> {}]
 NoCp == [pc |-> "idle", num |-> 0, ins |-> {}]
 
@@ -25,7 +32,7 @@ MCInit ==
   /\ phase = "ready" /\ fams = {F} /\ nfn = 2 /\ mfn = 1 /\ openMan = 1
   /\ ver = (F :> EmptyV) /\ pending = {} /\ snapTodo = {} /\ snaps = Empty
   /\ committed = (F :> EmptyV) /\ ccontent = (F :> {})
-  /\ fl = [pc |-> "idle", num |-> 0] /\ cp = NoCp
+  /\ fl = [w \in Flusher |-> IdleFl] /\ cp = NoCp
   /\ cl = [c \in {"own", "other"} |-> IdleCl]
   /\ nflush = 0 /\ ncompact = 0 /\ ncleanup = 0
 
@@ -36,18 +43,23 @@ NFN == IF NoNextFileNumberLog THEN 0 ELSE nfn
 RAcquire(r) == SnapAcquire(r, F) /\ UNCHANGED <<fl, cp, cl>> /\ Cnt
 RClose(r) == SnapClose(r) /\ UNCHANGED <<fl, cp, cl>> /\ Cnt
 
-\* ---- flusher
-FlAlloc == /\ fl.pc = "idle" /\ nflush < MaxFlush /\ TableAlloc(F, nfn)
-           /\ fl' = [pc |-> "create", num |-> nfn] /\ nflush' = nflush + 1 /\ UNCHANGED <<cp, cl, ncompact, ncleanup>>
-FlCreate == /\ fl.pc = "create" /\ TableCreate(F, fl.num)
-            /\ fl' = [fl EXCEPT !.pc = "close"] /\ UNCHANGED <<cp, cl>> /\ Cnt
-FlClose == /\ fl.pc = "close" /\ TableClose(F, fl.num, {<<1, fl.num>>})
-           /\ fl' = [fl EXCEPT !.pc = "commit"] /\ UNCHANGED <<cp, cl>> /\ Cnt
-FlCommit == /\ fl.pc = "commit"
-            /\ Commit(Rec(F, {<<0, fl.num>>}, {}, -1, NFN, {}, {}), {<<1, fl.num>>})
-            /\ fl' = [fl EXCEPT !.pc = "unpend"] /\ UNCHANGED <<cp, cl>> /\ Cnt
-FlUnpend == /\ fl.pc = "unpend" /\ Unpend(F, fl.num)
-            /\ fl' = [pc |-> "idle", num |-> 0] /\ UNCHANGED <<cp, cl>> /\ Cnt
+\* ---- flushers (storeFlusher.Add / Commit; CommitFamilyEditLog is one critical section: FlCommit)
+FlAlloc(w) == /\ fl[w].pc = "idle" /\ nflush < MaxFlush /\ TableAlloc(F, nfn)
+              /\ fl' = [fl EXCEPT ![w] = [IdleFl EXCEPT !.pc = "create", !.num = nfn]]
+              /\ nflush' = nflush + 1 /\ UNCHANGED <<cp, cl, ncompact, ncleanup>>
+FlCreate(w) == /\ fl[w].pc = "create" /\ TableCreate(F, fl[w].num)
+               /\ fl' = [fl EXCEPT ![w].pc = "close"] /\ UNCHANGED <<cp, cl>> /\ Cnt
+FlClose(w) == /\ fl[w].pc = "close" /\ TableClose(F, fl[w].num, {<<1, fl[w].num>>})
+              /\ fl' = [fl EXCEPT ![w].pc = IF BaseBeforeLock THEN "base" ELSE "commit"] /\ UNCHANGED <<cp, cl>> /\ Cnt
+\* only with BaseBeforeLock: the base version is read outside the lock, other commits may follow before FlCommit
+FlBase(w) == /\ fl[w].pc = "base"
+             /\ fl' = [fl EXCEPT ![w].pc = "commit", ![w].base = ver[F]] /\ UNCHANGED <<vars, cp, cl>> /\ Cnt
+FlCommit(w) == /\ fl[w].pc = "commit"
+               /\ CommitOn(IF BaseBeforeLock THEN fl[w].base ELSE ver[F],
+                           Rec(F, {<<0, fl[w].num>>}, {}, -1, NFN, {}, {}), {<<1, fl[w].num>>})
+               /\ fl' = [fl EXCEPT ![w].pc = "unpend", ![w].base = EmptyV] /\ UNCHANGED <<cp, cl>> /\ Cnt
+FlUnpend(w) == /\ fl[w].pc = "unpend" /\ Unpend(F, fl[w].num)
+               /\ fl' = [fl EXCEPT ![w] = IdleFl] /\ UNCHANGED <<cp, cl>> /\ Cnt
 
 \* ---- compaction (backgroundCompactionJob): snapshot, output, install, un-pend, close snapshot, cleanup
 L0 == {x \in ver[F].files : x[1] = 0}
@@ -113,7 +125,7 @@ ClDone(c) == /\ cl[c].pc = "rm" /\ (cl[c].listing \ cl[c].live) \cap OnDisk = {}
              /\ cl' = [cl EXCEPT ![c] = IdleCl] /\ UNCHANGED <<vars, fl, cp>> /\ Cnt
 
 MCNext == (\E r \in Reader : RAcquire(r) \/ RClose(r))
-          \/ FlAlloc \/ FlCreate \/ FlClose \/ FlCommit \/ FlUnpend
+          \/ (\E w \in Flusher : FlAlloc(w) \/ FlCreate(w) \/ FlClose(w) \/ FlBase(w) \/ FlCommit(w) \/ FlUnpend(w))
           \/ CpStart \/ CpAlloc \/ CpCreate \/ CpClose \/ CpEarly \/ CpInstall \/ CpUnpend \/ CpSnapClose \/ CpCleanupStart
           \/ OtherStart \/ (\E c \in {"own", "other"} : ClList(c) \/ ClCollect1(c) \/ ClCollect2(c) \/ ClCollect3(c) \/ ClRemove(c) \/ ClDone(c))
 MCSpec == MCInit /\ [][MCNext]_mcvars
